@@ -148,7 +148,10 @@ class Range(Sub):
                 raise Skip("a step's wall order relative to the end differs from its instant order (overlap)")
             if not by_inst:
                 break
-            exp.append(v)
+            if not exp or key(v) != key(exp[-1]):
+                # a step onto a calendar day that does not exist in the zone (Pacific/Apia 2011-12-30) is moved by add() onto the next value:
+                # the same value is yielded once (former known finding K-C19-1, repaired)
+                exp.append(v)
             k += 1
         req([key(x) for x in got] == [key(x) for x in exp], "range() differs from [start shifted by k*n units, computed from the start]", start=str(s), end=str(e),
             unit=unit, n=n, produced=len(got), expected=len(exp),
@@ -158,11 +161,20 @@ class Range(Sub):
         # wall clock (day clamped to the month's length) and an aware result is the documented resolution of that wall time (post-transition side)
         idx = range(len(got)) if len(got) <= 600 else sorted(set(list(range(200)) + list(range(len(got) - 200, len(got))) + list(range(0, len(got), 37))))
         dirn = 1 if forward else -1
+        mseq = []     # the model's sequence, a repeated value (step onto a wholly skipped day) kept once; one element beyond len(got)
+        k = 0
+        while len(mseq) <= len(got) and k <= len(got) + 4:
+            try:
+                mv = model_value(s, unit, dirn * k * n, z if not case["date"] else None, case["date"])
+            except (OverflowError, ValueError):
+                mv = None
+            if mv is None or not mseq or mseq[-1][1] != mv:
+                mseq.append((k, mv))
+            k += 1
         for j in idx:
-            mv = model_value(s, unit, dirn * j * n, z if not case["date"] else None, case["date"])
-            if mv is not None:
-                req(inst(got[j]) == mv, "range() value differs from the independently computed start shifted by k*n units", k=j, got=str(got[j]), start=str(s), unit=unit, n=n,
-                    expected_instant_us=mv)
+            if j < len(mseq) and mseq[j][1] is not None:
+                req(inst(got[j]) == mseq[j][1], "range() value differs from the independently computed start shifted by k*n units", k=mseq[j][0], got=str(got[j]), start=str(s),
+                    unit=unit, n=n, expected_instant_us=mseq[j][1])
         if got:
             req(key(got[0]) == key(s), "first value is not the start", got=str(got[0]))
         for a, b in zip(got, got[1:]):
@@ -172,10 +184,7 @@ class Range(Sub):
             req((inst(a) < inst(b)) if forward else (inst(a) > inst(b)), "sequence is not strictly monotone in the interval's direction", a=str(a), b=str(b))
         # ... and the sequence does not stop early: by the model, the step after the last yielded value is beyond the end (or not representable)
         if len(got) <= limit:
-            try:
-                nxt = model_value(s, unit, dirn * len(got) * n, z if not case["date"] else None, case["date"])
-            except (OverflowError, ValueError):
-                nxt = None
+            nxt = mseq[len(got)][1] if len(mseq) > len(got) else None
             if nxt is not None:
                 lim_lo, lim_hi = (D.date(1, 1, 1).toordinal(), D.date(9999, 12, 31).toordinal()) if case["date"] else (T.MIN_US, T.MAX_US)
                 if lim_lo <= nxt <= lim_hi:
